@@ -476,6 +476,17 @@ def run_pure_case(case, res):
     An inspection that changes its own later result, another inspection's result, later behaviour, or shared
     class-level tables is therefore observed."""
     import random
+    from .. import snapshot as _snap
+
+    _snap.KEEP_TIMER_LINES[0] = True
+    try:
+        return _run_pure_case(case, res)
+    finally:
+        _snap.KEEP_TIMER_LINES[0] = False
+
+
+def _run_pure_case(case, res):
+    import random
 
     kind, cfg = case["sim"], case["cfg"]
     res.count({"toy": "toy_cases", "five": "five_cases", "single": "single_cases"}[kind])
